@@ -65,6 +65,7 @@ type progResult struct {
 	Skip    string // not comparable (vm rejected / vm crash / timeout / explicit unsupported diagnostic)
 	Outcome string // ok | elk_error
 	Frames  int    // stack-trace frames of the VM report
+	Note    string // known finding under which a sub-check was skipped
 }
 
 func repoRoot() string {
@@ -405,7 +406,11 @@ func compare(r *progResult, vm sb.Run, nat binRun) {
 			return
 		}
 	}
-	if vmFailed && !strings.Contains(vm.Stderr, "optimised tail call") {
+	if vmFailed && pbt.KnownActive(kDirectCall) && len(vrep.frames) > 1 {
+		// known finding: the error was raised inside a user-defined method; the native backend calls such
+		// methods directly, without a call frame and without recording the call-site line
+		r.Note = kDirectCall
+	} else if vmFailed && !strings.Contains(vm.Stderr, "optimised tail call") {
 		// frames: same number, same file:line (innermost last)
 		if strings.Join(vrep.frames, " ") != strings.Join(nrep.frames, " ") {
 			r.Fail = "trace"
@@ -422,6 +427,11 @@ func compare(r *progResult, vm sb.Run, nat binRun) {
 
 // known finding: native call frames carry other function names than VM frames
 const kFrameNames = "native-frame-names"
+
+// known finding: statically bound calls of user-defined methods are emitted as direct Go calls without
+// a native call frame and without the call-site line, so the trace of an error raised inside such a
+// method lacks the callee frame (and reports the line of the previous call)
+const kDirectCall = "native-direct-call-frames"
 
 // known finding: generated closure calls pass padding slots as arguments (pinned by the golden tests)
 const kClosureCall = "native-closure-call-arity"
@@ -489,6 +499,11 @@ func oracle(c Case, ctx *pbt.Ctx) error {
 	for _, k := range []string{kClosureCall, kNumContinue, kIface} {
 		if pbt.KnownActive(k) {
 			ctx.Excluded(k)
+		}
+	}
+	for _, r := range res {
+		if r.Note == kDirectCall {
+			ctx.Excluded(kDirectCall)
 		}
 	}
 	if compared > 0 {
@@ -680,7 +695,7 @@ func TestNativeGenerated(t *testing.T) {
 	pbt.Rule("native_generated", "a case is a batch of 16 generated programs (3/4 from the c09 type-directed generator: methods, class, locals, all loop forms, labelled break/continue, Int/BigInt/Float/fixed-int/String operators, interpolation, list/tuple/map/set, switch, closures, uncaught errors; 1/4 MiniElk with the do/catch/defer/throw features off); every program runs on the VM and as a native binary built from the Go backend's output; non-trivial = at least one program of the batch was built, executed and compared (labels count programs: compared:*, outcome:*, feat:*); distinct by the sources of the compared programs")
 	worker = sb.New("")
 	defer worker.Close()
-	pbt.Run(t, pbt.Prop[Case]{Name: "native_generated", Quick: 3, Thorough: 45, Gen: genBatch, Oracle: oracle, Minimize: minimize, Sample: sample})
+	pbt.Run(t, pbt.Prop[Case]{Name: "native_generated", Quick: 2, Thorough: 45, Gen: genBatch, Oracle: oracle, Minimize: minimize, Sample: sample})
 }
 
 // ---------------------------------------------------------------------------
@@ -856,5 +871,5 @@ func TestNativeCorpus(t *testing.T) {
 		return oracle(observed(c), ctx)
 	}
 	min := func(c Case) Case { return minimize(observed(c)) }
-	pbt.Run(t, pbt.Prop[Case]{Name: "native_corpus", Quick: 3, Thorough: 40, Gen: gen, Oracle: orc, Minimize: min, Sample: sample})
+	pbt.Run(t, pbt.Prop[Case]{Name: "native_corpus", Quick: 2, Thorough: 40, Gen: gen, Oracle: orc, Minimize: min, Sample: sample})
 }
